@@ -71,6 +71,10 @@ class Gen:
         if kind == 'forelse':
             v = self.fresh('x')
             return '{%% for %s in %s %%}%s{%% else %%}E{%% endfor %%}%s' % (v, self.fresh('l'), body(v), s)
+        if kind == 'forelsevar':
+            # the else body runs after the loop frame is gone: the loop target read there is an outer name
+            v = self.fresh('x')
+            return '{%% for %s in %s %%}%s{%% set inloop = a %%}{%% else %%}{{ %s }}{{ inloop }}{%% endfor %%}%s' % (v, self.fresh('l'), body(v), v, s)
         if kind == 'forrec':
             v = self.fresh('x')
             return '{%% for %s in %s recursive %%}%s{{ loop(%s.c) }}{%% else %%}E{%% endfor %%}%s' % (v, self.fresh('l'), body(v), v, s)
